@@ -283,13 +283,13 @@ theorem takeWhile_zeros_append {α : Type} (p : α → Bool) (a : α) (hp : p a 
     (List.replicate z a ++ l).takeWhile p = List.replicate z a ++ l.takeWhile p := by
   induction z with
   | zero => rfl
-  | succ z ih => simp [List.replicate_succ, List.takeWhile_cons, hp, ih]
+  | succ z ih => simp [List.replicate_succ, hp, ih]
 
 theorem takeWhile_eq_nil_of_head {α : Type} (p : α → Bool) (l : List α) (h : ∀ x, l.head? = some x → p x = false) :
     l.takeWhile p = [] := by
   cases l with
   | nil => rfl
-  | cons x xs => simp [List.takeWhile_cons, h x (by simp)]
+  | cons x xs => simp [h x (by simp)]
 
 theorem takeWhile_eq_replicate (l : Bytes) : l.takeWhile (· = 0) = List.replicate (l.takeWhile (· = 0)).length 0 := by
   induction l with
@@ -299,7 +299,7 @@ theorem takeWhile_eq_replicate (l : Bytes) : l.takeWhile (· = 0) = List.replica
     · subst hx
       simp only [List.takeWhile_cons, decide_true, if_true, List.length_cons, List.replicate_succ]
       rw [← ih]
-    · simp [List.takeWhile_cons, hx]
+    · simp [hx]
 
 theorem dropWhile_head_not {α : Type} (p : α → Bool) (l : List α) (x : α) (xs : List α)
     (h : l.dropWhile p = x :: xs) : p x = false := by
